@@ -164,7 +164,10 @@ fn probe_build(func: &str) -> bool {
         ("pair and its reverse", vec![q("eur", "usd", 1.1), q("usd", "eur", 0.9)]),
         ("triangle (over-specified)", vec![q("eur", "usd", 1.1), q("usd", "jpy", 110.0), q("eur", "jpy", 120.0)]),
         ("two components (under-specified)", vec![q("eur", "usd", 1.1), q("gbp", "jpy", 150.0)]),
-        ("cycle plus isolated pair (count is right, not a tree)", vec![q("eur", "usd", 1.1), q("usd", "jpy", 110.0), q("eur", "jpy", 120.0), q("cad", "aud", 1.1), q("nok", "gbp", 0.08)]),
+        ("cycle plus two isolated pairs", vec![q("eur", "usd", 1.1), q("usd", "jpy", 110.0), q("eur", "jpy", 120.0), q("cad", "aud", 1.1), q("nok", "gbp", 0.08)]),
+        ("cycle plus one isolated pair (5 currencies, 4 quotes: the count is right, not a tree)", vec![q("eur", "usd", 1.1), q("usd", "jpy", 110.0), q("eur", "jpy", 120.0), q("cad", "aud", 1.1)]),
+        ("4-cycle plus isolated pair (6 currencies, 5 quotes: the count is right, not a tree)", vec![q("eur", "usd", 1.1), q("usd", "jpy", 110.0), q("jpy", "gbp", 0.006), q("gbp", "eur", 1.2), q("cad", "aud", 1.1)]),
+        ("two components that are trees plus a doubled pair reversed (count right)", vec![q("eur", "usd", 1.1), q("usd", "eur", 0.9), q("cad", "aud", 1.1), q("aud", "nzd", 1.1)]),
         ("inconsistent settlement", vec![
             FXRate::try_new("eur", "usd", Number::F64(1.1), Some(rateslib::calendars::ndt(2004, 1, 1))).unwrap(),
             FXRate::try_new("usd", "jpy", Number::F64(110.0), Some(rateslib::calendars::ndt(2004, 1, 2))).unwrap(),
@@ -179,6 +182,10 @@ fn probe_build(func: &str) -> bool {
         ]),
     ];
     for (what, v) in bad {
+        // announced first: if the real code brings the process down (unbounded recursion), the last announcement names the input
+        println!("# trying FXRates::try_new on a degenerate quote set: {}", what);
+        use std::io::Write;
+        let _ = std::io::stdout().flush();
         let r = std::panic::catch_unwind(std::panic::AssertUnwindSafe(|| FXRates::try_new(v, None).is_ok()));
         match r {
             Ok(false) => {}
